@@ -130,7 +130,8 @@ class Engine(EngineBase, ExprMixin, StmtMixin, CallMixin, PreludeMixin, FoldMixi
                 raise CheckerError('loop control escaped %s' % qual)
         # vacuity guard: a call-site clause that no executed call matched proves nothing
         for s_ in self.reg.sites:
-            if s_['caller'] == qual and (s_['caller'], s_['callee'], s_['ordinal']) not in getattr(self, 'fired_sites', set()):
+            if s_['caller'] == qual and s_['ordinal'] is not None and \
+                    (s_['caller'], s_['callee'], s_['ordinal']) not in getattr(self, 'fired_sites', set()):
                 raise CheckerError('call-site clause never reached: %s -> %s@%s' % (qual, s_['callee'], s_['ordinal']))
         return len(outs)
 
